@@ -9,7 +9,7 @@ PROPS_MODULE = "AslProps.C07"
 DRIVER = "c07"
 RULE = ("cases = groups of Xml::decode calls (`dec`) on generated documents (comments, PIs, DOCTYPE with nested <>, XML "
         "declaration, named/decimal/hex references incl. out-of-range ones, both quote kinds, blanks inside tags), on their "
-        "survivors (`sub`: one node of the decoded tree kept after the tree is released: its parent() must be null, its subtree intact), "
+        "descents (`desc`: `e = e.child(0)` down the first-child chain on the only handle), survivors (`sub`: one node of the decoded tree kept after the tree is released: its parent() must be null, its subtree intact), "
         "mutations (every/random truncation, byte insert/delete/replace, extra/missing/mismatched end tags, </>, unterminated "
         "references), on token soups, random bytes and exhaustive short strings over markup alphabets; plus Xml::encode (`enc`) "
         "and decode(encode(t)) (`rt`) on generated DOM trees up to depth 12 (compact and indented) with & < > quotes, blanks "
@@ -327,6 +327,8 @@ def gen(rng, tier):
             m = mutate(rng, m if rng.random() < 0.5 else d)
             c.append(dec(m))
         # a handle to one node kept after the decoded tree is released (k-th node in document order)
+        c.append("desc " + hexs(d))   # descend the first-child chain by assignment to the only handle
+        c.append("desc " + hexs(m))
         c.append("sub %s %d" % (hexs(d), rng.randrange(0, 40)))
         c.append("sub %s %d" % (hexs(m), rng.randrange(0, 8)))
         cases.append(c)
@@ -664,6 +666,13 @@ def reference(line):
     try:
         if t[0] == "dec":
             return ref_dec(unhex(t[1]))
+        if t[0] == "desc":
+            tr = ref_tree(unhex(t[1]))
+            if tr is None:
+                return None
+            while tr[3] and tr[3][0][0] == "E":
+                tr = tr[3][0]
+            return dump_root(tr)
         if t[0] == "sub":
             tr = ref_tree(unhex(t[1]))
             if tr is None:
@@ -694,6 +703,8 @@ def reference(line):
 def oracle(case, impl, model, crash):
     """property oracle judged on the implementation's behaviour alone (DESIGN 1.3)"""
     if crash:
+        if case and all(l.startswith("desc ") for l in case):
+            return True, ("walking down a decoded tree with `e = e.child(0)` on the only handle (or `e = e`) is a memory error: %s" % crash)
         if case and all(l.startswith("sub ") for l in case):
             return True, ("looking at a node of the decoded tree (parent(), children) after the tree itself was released is a memory "
                           "error: %s" % crash)
@@ -745,6 +756,10 @@ def simplify_line(line):
             cands = [c for c in cands if text_only_sole(c) or not sole]   # stay inside the indented clause's side condition
         for c in cands:
             yield "%s %s %s" % (t[0], t[1], " ".join(tokens(c)))
+        return
+    if t[0] == "desc" and len(t) == 2:
+        for l in simplify_line("dec " + t[1]):
+            yield "desc " + l.split()[1]
         return
     if t[0] == "sub" and len(t) == 3:
         for k in range(0, min(int(t[2]), 6)):
@@ -799,7 +814,9 @@ LEVEL_TEXT = ("Proved in Lean 4 about the executable transcription of Xml::decod
               "returned tree, at every depth, each child's parent pointer is the identity of the element containing it; "
               "(2b) xml_root_parent_null — the returned element's own parent is null (code after fix 5247de7; before it parent() read freed "
               "memory); (2c) xml_survivor_links — a node of the returned tree kept while the tree is released has a null parent and intact "
-              "links below it (code after fix c581d77; before it parent() read freed memory); (2d) xml_text_roundtrip — text() of "
+              "links below it (code after fix c581d77; before it parent() read freed memory; the handle assignment `e = e.child(0)` that "
+              "produces such survivors acquires before it releases since fix e5e901a — xml_descend_links covers the node it ends on); "
+              "(2d) xml_text_roundtrip — text() of "
               "decode(encode(t)) is the first-child-chain text of normalize(t) (text() is observed on every decoded result by K, incl. a "
               "300000-deep chain: recursive before fix f16a8e9); (3) xml_roundtrip_compact — for EVERY element tree (any depth/fan-out) whose tag and attribute names pass the decoder's own "
               "name tests (xml_names_accepted: every XML 1.0 Name as UTF-8 bytes does), with arbitrary NUL-free attribute values and text, decode(encode(t,false)) is a tree whose erasure equals "
